@@ -12,7 +12,9 @@
 #include "opentelemetry/sdk/logs/batch_log_record_processor_runtime_options.h"
 #include "opentelemetry/sdk/logs/batch_log_record_processor_options.h"
 #include "opentelemetry/sdk/logs/exporter.h"
+#include "opentelemetry/sdk/logs/logger_context.h"
 #include "opentelemetry/sdk/logs/logger_provider.h"
+#include "opentelemetry/sdk/logs/logger_provider_factory.h"
 #include "opentelemetry/sdk/logs/read_write_log_record.h"
 #include "opentelemetry/sdk/logs/simple_log_record_processor.h"
 #include "opentelemetry/sdk/metrics/export/periodic_exporting_metric_reader.h"
@@ -29,7 +31,9 @@
 #include "opentelemetry/sdk/trace/exporter.h"
 #include "opentelemetry/sdk/trace/simple_processor.h"
 #include "opentelemetry/sdk/trace/span_data.h"
+#include "opentelemetry/sdk/trace/tracer_context.h"
 #include "opentelemetry/sdk/trace/tracer_provider.h"
+#include "opentelemetry/sdk/trace/tracer_provider_factory.h"
 
 using namespace hz;
 namespace nostd    = opentelemetry::nostd;
@@ -467,8 +471,8 @@ struct SpanDirect : Pipeline
     r->SetName(span_tag(p, k));
     proc->OnEnd(std::move(r));
   }
-  bool flush(int64_t to, int) override { hz::HarnessCode hc_; return proc->ForceFlush(std::chrono::microseconds(to)); }
-  bool shutdown(int64_t to, int) override { hz::HarnessCode hc_; return proc->Shutdown(std::chrono::microseconds(to)); }
+  bool flush(int64_t to, int) override { return proc->ForceFlush(std::chrono::microseconds(to)); }
+  bool shutdown(int64_t to, int) override { return proc->Shutdown(std::chrono::microseconds(to)); }
 };
 
 struct LogDirect : Pipeline
@@ -489,8 +493,8 @@ struct LogDirect : Pipeline
     r->SetEventId(p * 1000 + k, "");
     proc->OnEmit(std::move(r));
   }
-  bool flush(int64_t to, int) override { hz::HarnessCode hc_; return proc->ForceFlush(std::chrono::microseconds(to)); }
-  bool shutdown(int64_t to, int) override { hz::HarnessCode hc_; return proc->Shutdown(std::chrono::microseconds(to)); }
+  bool flush(int64_t to, int) override { return proc->ForceFlush(std::chrono::microseconds(to)); }
+  bool shutdown(int64_t to, int) override { return proc->Shutdown(std::chrono::microseconds(to)); }
 };
 
 // processor layout of provider worlds: bit i of `layout` = processor i is simple
@@ -519,18 +523,52 @@ struct SpanProvider : Pipeline
       later = std::move(procs.back());
       procs.pop_back();
     }
-    prov.reset(new sdktrace::TracerProvider(std::move(procs), Resource::GetEmpty()));
+    // every public way to a provider: processor-list / single-processor constructors, a
+    // ready-made context, the factory overloads; and processors added afterwards
+    switch ((int)w.c->knob("prov_route", 0))
+    {
+      case 1:
+        if (procs.size() == 1)
+        {
+          prov.reset(new sdktrace::TracerProvider(std::move(procs[0]), Resource::GetEmpty()));
+          break;
+        }
+        // fall through
+      case 2: {
+        std::unique_ptr<sdktrace::TracerContext> cx(
+            new sdktrace::TracerContext(std::move(procs), Resource::GetEmpty()));
+        prov.reset(new sdktrace::TracerProvider(std::move(cx)));
+        break;
+      }
+      case 3:
+        if (procs.size() == 1)
+          prov = sdktrace::TracerProviderFactory::Create(std::move(procs[0]), Resource::GetEmpty());
+        else
+          prov = sdktrace::TracerProviderFactory::Create(std::move(procs), Resource::GetEmpty());
+        break;
+      case 4: {
+        // an empty provider, every processor added afterwards
+        std::vector<std::unique_ptr<sdktrace::SpanProcessor>> none;
+        prov.reset(new sdktrace::TracerProvider(std::move(none), Resource::GetEmpty()));
+        for (auto &pr : procs)
+          prov->AddProcessor(std::move(pr));
+        break;
+      }
+      default:
+        prov.reset(new sdktrace::TracerProvider(std::move(procs), Resource::GetEmpty()));
+    }
     if (later)
       prov->AddProcessor(std::move(later));
     tracer = prov->GetTracer("vsim");
+    tracer = prov->GetTracer("vsim");  // second request for the same scope (not judged here: C19)
   }
   void produce(int p, int k) override
   {
     auto s = tracer->StartSpan(span_tag(p, k));
     s->End();
   }
-  bool flush(int64_t to, int) override { hz::HarnessCode hc_; return prov->ForceFlush(std::chrono::microseconds(to)); }
-  bool shutdown(int64_t to, int) override { hz::HarnessCode hc_; return prov->Shutdown(std::chrono::microseconds(to)); }
+  bool flush(int64_t to, int) override { return prov->ForceFlush(std::chrono::microseconds(to)); }
+  bool shutdown(int64_t to, int) override { return prov->Shutdown(std::chrono::microseconds(to)); }
 };
 
 struct LogProvider : Pipeline
@@ -558,7 +596,36 @@ struct LogProvider : Pipeline
       later = std::move(procs.back());
       procs.pop_back();
     }
-    prov.reset(new sdklogs::LoggerProvider(std::move(procs), Resource::GetEmpty()));
+    switch ((int)w.c->knob("prov_route", 0))
+    {
+      case 1:
+        if (procs.size() == 1)
+        {
+          prov.reset(new sdklogs::LoggerProvider(std::move(procs[0]), Resource::GetEmpty()));
+          break;
+        }
+        // fall through
+      case 2: {
+        std::unique_ptr<sdklogs::LoggerContext> cx(
+            new sdklogs::LoggerContext(std::move(procs), Resource::GetEmpty()));
+        prov.reset(new sdklogs::LoggerProvider(std::move(cx)));
+        break;
+      }
+      case 3:
+        if (procs.size() == 1)
+          prov = sdklogs::LoggerProviderFactory::Create(std::move(procs[0]), Resource::GetEmpty());
+        else
+          prov = sdklogs::LoggerProviderFactory::Create(std::move(procs), Resource::GetEmpty());
+        break;
+      case 4: {
+        prov.reset(new sdklogs::LoggerProvider());
+        for (auto &pr : procs)
+          prov->AddProcessor(std::move(pr));
+        break;
+      }
+      default:
+        prov.reset(new sdklogs::LoggerProvider(std::move(procs), Resource::GetEmpty()));
+    }
     if (later)
       prov->AddProcessor(std::move(later));
     logger = prov->GetLogger("vsim", "vsim");
@@ -572,8 +639,8 @@ struct LogProvider : Pipeline
       logger->EmitLogRecord(std::move(r));
     }
   }
-  bool flush(int64_t to, int) override { hz::HarnessCode hc_; return prov->ForceFlush(std::chrono::microseconds(to)); }
-  bool shutdown(int64_t to, int) override { hz::HarnessCode hc_; return prov->Shutdown(std::chrono::microseconds(to)); }
+  bool flush(int64_t to, int) override { return prov->ForceFlush(std::chrono::microseconds(to)); }
+  bool shutdown(int64_t to, int) override { return prov->Shutdown(std::chrono::microseconds(to)); }
 };
 
 struct Periodic : Pipeline
@@ -616,14 +683,14 @@ struct Periodic : Pipeline
     counter = meter->CreateUInt64Counter("c");
   }
   // measurement (p, k) adds 4^(p*8+k): every measurement is one base-4 digit of the sum
-  void produce(int p, int k) override { hz::HarnessCode hc_; counter->Add((uint64_t)1 << (2 * (p * 8 + k))); }
+  void produce(int p, int k) override { counter->Add((uint64_t)1 << (2 * (p * 8 + k))); }
   bool flush(int64_t to, int via) override
   {
     if (via == 1)
       return prov->ForceFlush(std::chrono::microseconds(to));
     return readers[0]->ForceFlush(std::chrono::microseconds(to));
   }
-  bool shutdown(int64_t to, int) override { hz::HarnessCode hc_; return prov->Shutdown(std::chrono::microseconds(to)); }
+  bool shutdown(int64_t to, int) override { return prov->Shutdown(std::chrono::microseconds(to)); }
 };
 
 // ------------------------------------------------------------------- the run
@@ -1316,6 +1383,7 @@ void generate(const std::string &prop, Rng &wl, Rng &fl, Case &c)
     c.set("nproc", nproc);
     c.set("layout", layout);
     c.set("add_later", nproc > 1 && wl.chance(0.4));
+    c.set("prov_route", wl.chance(0.5) ? 0 : (int64_t)wl.range(1, 4));
   }
   if (metrics)
   {
